@@ -716,9 +716,18 @@ theorem toLower_tableScheme (s p : Bytes) : toLower (tableScheme (toLower s) p) 
       · exact toLower_idem s
   · exact toLower_idem s
 
+/-- Address.Normalize in terms of `canonHost` -/
+theorem normalize_eq (a : Address) :
+    a.normalize = { a with scheme := toLower a.scheme, host := toLower (canonHost a.host), path := toLower a.path } := by
+  unfold Address.normalize canonHost
+  cases parseIP a.host <;> rfl
+
+theorem canonHost_of_not_ip (h : Bytes) (hn : parseIP h = none) : canonHost h = h := by
+  unfold canonHost; rw [hn]
+
 /-- For every well-formed `[scheme://]name[:port]` whose host is not an IP literal, what the model's
 standardizeAddress + Normalize leave in the Address is what the specification reads from the text. -/
-theorem reader_agrees (a : AddrParts) (hok : a.ok) (hnip : parseIP a.host = none) (r : Address)
+theorem reader_agrees_canon (a : AddrParts) (hok : a.ok) (hcan : canonHost a.host = a.host) (r : Address)
     (h : standardizeAddress (composeAddr a) = .ok r) :
     (r.normalize.scheme, r.normalize.host, r.normalize.port) = readAddr (composeAddr a) := by
   rw [standardize_compose a hok] at h
@@ -729,8 +738,8 @@ theorem reader_agrees (a : AddrParts) (hok : a.ok) (hnip : parseIP a.host = none
   · cases h
   · injection h with h
     subst h
-    unfold Address.normalize
-    simp only [hnip, toLower_tableScheme]
+    rw [normalize_eq]
+    simp only [hcan, toLower_tableScheme]
 
 /-! ## Address.VHost and Address.Key on well-formed addresses -/
 
@@ -739,7 +748,7 @@ theorem vhost_eq_splitScheme (a : Address) : a.vhost = (splitScheme a.original).
   cases indexSub a.original b!"://" 0 <;> rfl
 
 /-- the normalised Address of a well-formed text -/
-theorem normalized_compose (a : AddrParts) (hok : a.ok) (hnip : parseIP a.host = none) (r : Address)
+theorem normalized_compose_canon (a : AddrParts) (hok : a.ok) (hcan : canonHost a.host = a.host) (r : Address)
     (h : standardizeAddress (composeAddr a) = .ok r) :
     r.normalize = { original := composeAddr a, scheme := tableScheme (toLower a.scheme) (tablePort (toLower a.scheme) a.port),
                     host := toLower a.host, port := tablePort (toLower a.scheme) a.port, path := [] } := by
@@ -750,14 +759,14 @@ theorem normalized_compose (a : AddrParts) (hok : a.ok) (hnip : parseIP a.host =
   · cases h
   · injection h with h
     subst h
-    unfold Address.normalize
-    simp only [hnip, toLower_tableScheme]
+    rw [normalize_eq]
+    simp only [hcan, toLower_tableScheme]
     rfl
 
 /-- VHost = the address text without its scheme: `name[:port]` -/
-theorem vhost_compose (a : AddrParts) (hok : a.ok) (hnip : parseIP a.host = none) (r : Address)
+theorem vhost_compose_canon (a : AddrParts) (hok : a.ok) (hcan : canonHost a.host = a.host) (r : Address)
     (h : standardizeAddress (composeAddr a) = .ok r) : r.normalize.vhost = a.host ++ portPart a := by
-  rw [normalized_compose a hok hnip r h, vhost_eq_splitScheme]
+  rw [normalized_compose_canon a hok hcan r h, vhost_eq_splitScheme]
   simp only
   rw [splitScheme_compose a hok]
 
@@ -777,9 +786,9 @@ theorem hasPrefix_self_cons (x : UInt8) (p t : Bytes) : hasPrefix (x :: p ++ t) 
 
 /-- Address.Key of a well-formed address: `[scheme://]name[:port]` with the scheme of the table and the lower-cased name;
 the port is kept when it was written — except that a written 80/443 without scheme is absorbed into the inferred scheme. -/
-theorem key_compose (a : AddrParts) (hok : a.ok) (hnip : parseIP a.host = none) (r : Address)
+theorem key_compose_canon (a : AddrParts) (hok : a.ok) (hcan : canonHost a.host = a.host) (r : Address)
     (h : standardizeAddress (composeAddr a) = .ok r) : r.normalize.key = expectedKey a := by
-  rw [normalized_compose a hok hnip r h]
+  rw [normalized_compose_canon a hok hcan r h]
   unfold Address.key expectedKey
   simp only [List.append_nil]
   by_cases hs : a.scheme.isEmpty = true
@@ -1000,17 +1009,17 @@ theorem expectedAddr_ok_of_key (a : AddrParts) (r : Address) (h : expectedAddr a
 
 /-- ROUND TRIP through the site key: the key of a well-formed address is itself a well-formed address; parsing it again
 gives the same scheme, host and port, and the same key. -/
-theorem key_roundtrip (a : AddrParts) (hok : a.ok) (hnip : parseIP a.host = none) (hnip' : parseIP (toLower a.host) = none)
+theorem key_roundtrip_canon (a : AddrParts) (hok : a.ok) (hcan : canonHost a.host = a.host) (hcan' : canonHost (toLower a.host) = toLower a.host)
     (r : Address) (h : standardizeAddress (composeAddr a) = .ok r) :
     ∃ r', standardizeAddress r.normalize.key = .ok r' ∧ r'.normalize.scheme = r.normalize.scheme ∧
       r'.normalize.host = r.normalize.host ∧ r'.normalize.port = r.normalize.port ∧ r'.normalize.key = r.normalize.key := by
   have hkok := keyParts_ok a hok
-  have hkey := key_compose a hok hnip r h
-  have hnorm := normalized_compose a hok hnip r h
+  have hkey := key_compose_canon a hok hcan r h
+  have hnorm := normalized_compose_canon a hok hcan r h
   have hexp : expectedAddr a = .ok r := by rw [← standardize_compose a hok]; exact h
   obtain ⟨r', hr'⟩ := expectedAddr_ok_of_key a r hexp
   have hstd : standardizeAddress (composeAddr (keyParts a)) = .ok r' := by rw [standardize_compose _ hkok]; exact hr'
-  have hnorm' := normalized_compose (keyParts a) hkok hnip' r' hstd
+  have hnorm' := normalized_compose_canon (keyParts a) hkok hcan' r' hstd
   have hkt := key_table a
   simp only at hkt
   have hkhost : (keyParts a).host = toLower a.host := rfl
@@ -1018,7 +1027,7 @@ theorem key_roundtrip (a : AddrParts) (hok : a.ok) (hnip : parseIP a.host = none
   · rw [hnorm', hnorm]; exact hkt.2
   · rw [hnorm', hnorm]; simp only [hkhost]; exact toLower_idem _
   · rw [hnorm', hnorm]; exact hkt.1
-  · rw [key_compose (keyParts a) hkok hnip' r' hstd, hkey, expectedKey_eq_compose, expectedKey_eq_compose]
+  · rw [key_compose_canon (keyParts a) hkok hcan' r' hstd, hkey, expectedKey_eq_compose, expectedKey_eq_compose]
     congr 1
     -- keyParts is idempotent
     have hs2 : (keyParts (keyParts a)).scheme = (keyParts a).scheme := hkt.2
@@ -1038,5 +1047,32 @@ theorem key_roundtrip (a : AddrParts) (hok : a.ok) (hnip : parseIP a.host = none
         rw [hk, hk1] at hs2 hh2 hp2
         simp only at hs2 hh2 hp2
         rw [hs2, hh2, hp2]
+
+/-! the same statements for hosts that are no IP literals (the forms first proved; kept under their names) -/
+
+theorem reader_agrees (a : AddrParts) (hok : a.ok) (hnip : parseIP a.host = none) (r : Address)
+    (h : standardizeAddress (composeAddr a) = .ok r) :
+    (r.normalize.scheme, r.normalize.host, r.normalize.port) = readAddr (composeAddr a) :=
+  reader_agrees_canon a hok (canonHost_of_not_ip _ hnip) r h
+
+theorem normalized_compose (a : AddrParts) (hok : a.ok) (hnip : parseIP a.host = none) (r : Address)
+    (h : standardizeAddress (composeAddr a) = .ok r) :
+    r.normalize = { original := composeAddr a, scheme := tableScheme (toLower a.scheme) (tablePort (toLower a.scheme) a.port),
+                    host := toLower a.host, port := tablePort (toLower a.scheme) a.port, path := [] } :=
+  normalized_compose_canon a hok (canonHost_of_not_ip _ hnip) r h
+
+theorem vhost_compose (a : AddrParts) (hok : a.ok) (hnip : parseIP a.host = none) (r : Address)
+    (h : standardizeAddress (composeAddr a) = .ok r) : r.normalize.vhost = a.host ++ portPart a :=
+  vhost_compose_canon a hok (canonHost_of_not_ip _ hnip) r h
+
+theorem key_compose (a : AddrParts) (hok : a.ok) (hnip : parseIP a.host = none) (r : Address)
+    (h : standardizeAddress (composeAddr a) = .ok r) : r.normalize.key = expectedKey a :=
+  key_compose_canon a hok (canonHost_of_not_ip _ hnip) r h
+
+theorem key_roundtrip (a : AddrParts) (hok : a.ok) (hnip : parseIP a.host = none) (hnip' : parseIP (toLower a.host) = none)
+    (r : Address) (h : standardizeAddress (composeAddr a) = .ok r) :
+    ∃ r', standardizeAddress r.normalize.key = .ok r' ∧ r'.normalize.scheme = r.normalize.scheme ∧
+      r'.normalize.host = r.normalize.host ∧ r'.normalize.port = r.normalize.port ∧ r'.normalize.key = r.normalize.key :=
+  key_roundtrip_canon a hok (canonHost_of_not_ip _ hnip) (canonHost_of_not_ip _ hnip') r h
 
 end Casket.AutoHTTPS
